@@ -400,4 +400,122 @@ theorem try_enabled (s : St) (t : Nat) (hk : tryRank (s.pc t) ≠ 0) :
     · exact ⟨.retTry t 0, rfl, by simp [step, hpc]⟩
     · exact ⟨.retTry t 1, rfl, by simp [step, hpc]⟩
 
+/-! ### the ghost lists `order` / `acq` expressed on observable events -/
+
+/-- thread of a `fetch_add(users)` event (a ticket taken by `lock`) -/
+def faddTid : Ev → Option Nat
+  | .faddUsers t _ => some t
+  | _ => none
+
+/-- thread of a `ret lock` note -/
+def retLockTid : Ev → Option Nat
+  | .retLock t => some t
+  | _ => none
+
+theorem order_step (s s' : St) (e : Ev) (hs : step s e = some s') :
+    s'.order = s.order ++ (faddTid e).toList := by
+  cases e <;> simp only [step] at hs <;> split at hs <;> simp at hs
+  all_goals first
+    | (subst hs; simp [faddTid])
+    | (obtain ⟨h1, hs⟩ := hs; subst hs; simp [faddTid])
+    | (obtain ⟨h1, hs⟩ := hs; split at hs <;> simp at hs <;> subst hs <;> simp [faddTid])
+
+theorem order_eq_trace {v0 : Nat} {es : List Ev} {s : St} (hr : (sys v0).run es = some s) :
+    s.order = es.filterMap faddTid := by
+  refine Sys.hist_inv_of_run (sys v0) (fun s es => s.order = es.filterMap faddTid) (by simp [sys, init])
+    ?_ hr
+  intro s es e s' hI hs
+  simp only [List.filterMap_append, ← hI]
+  rw [order_step s s' e hs]
+  cases h : faddTid e <;> simp [List.filterMap, h]
+
+/-- `acq` = the threads that have returned from `lock` so far, followed by the thread (if any)
+    whose spin loop has exited but which has not yet returned -/
+def RInv (s : St) (rl : List Nat) : Prop :=
+  ∃ l, s.acq = rl ++ l ∧
+    ((l = [] ∧ ∀ t, s.pc t ≠ .lockDone) ∨ (∃ t, l = [t] ∧ s.pc t = .lockDone))
+
+theorem rinv_pc_only {s : St} {rl : List Nat} (hr : RInv s rl) (t : Nat) (p : Pc) (s' : St)
+    (ha : s'.acq = s.acq) (hpc : s'.pc = upd s.pc t p) (h1 : s.pc t ≠ .lockDone)
+    (h2 : p ≠ .lockDone) : RInv s' rl := by
+  obtain ⟨l, hl, h⟩ := hr
+  refine ⟨l, by rw [ha]; exact hl, ?_⟩
+  rw [hpc]
+  simp only [upd]
+  grind
+
+theorem rinv_step (s s' : St) (e : Ev) (rl : List Nat) (hi : Inv s) (hi' : Inv s')
+    (hr : RInv s rl) (hs : step s e = some s') : RInv s' (rl ++ (retLockTid e).toList) := by
+  cases e with
+  | retLock t =>
+    simp only [step] at hs
+    split at hs <;> simp at hs
+    next hpc =>
+    subst hs
+    obtain ⟨l, hl, h⟩ := hr
+    have hex := hi.excl
+    rcases h with ⟨_, h⟩ | ⟨t0, rfl, h0⟩
+    · exact absurd hpc (h t)
+    · have : t0 = t := hex t0 t (by simp [h0, holder]) (by simp [hpc, holder])
+      subst this
+      refine ⟨[], by simp [retLockTid, hl], Or.inl ⟨rfl, ?_⟩⟩
+      intro t'
+      simp only [upd]
+      split
+      · simp
+      · next hne =>
+        intro h'
+        exact hne (hex t' t0 (by simp [h', holder]) (by simp [hpc, holder]))
+  | ldTicket t x =>
+    simp only [step] at hs
+    split at hs <;> simp at hs
+    · next my g hpc =>
+      obtain ⟨h1, hs⟩ := hs
+      split at hs <;> simp at hs <;> subst hs
+      · obtain ⟨l, hl, h⟩ := hr
+        have hex := hi'.excl
+        simp only [upd] at hex
+        rcases h with ⟨rfl, _⟩ | ⟨t0, rfl, h0⟩
+        · exact ⟨[t], by simp [retLockTid, hl], Or.inr ⟨t, rfl, by simp [upd]⟩⟩
+        · have hne : t0 ≠ t := by rintro rfl; rw [hpc] at h0; simp at h0
+          have := hex t0 t (by simp [hne, h0, holder]) (by simp [holder])
+          exact absurd this hne
+      · simpa [retLockTid] using hr
+    · next hpc =>
+      obtain ⟨h1, hs⟩ := hs
+      simpa [retLockTid] using rinv_pc_only hr t _ s' (by subst hs; rfl) (by subst hs; rfl)
+        (by simp [hpc]) (by simp)
+  | casBlob t ftk fus etk eus dtk dus ok =>
+    simp only [step] at hs
+    split at hs <;> simp at hs
+    next hpc =>
+    obtain ⟨_, hs⟩ := hs
+    split at hs <;> simp at hs <;>
+      simpa [retLockTid] using rinv_pc_only hr t _ s' (by subst hs; rfl) (by subst hs; rfl)
+        (by simp [hpc]) (by simp)
+  | _ =>
+    simp only [step] at hs
+    split at hs <;> simp at hs
+    all_goals first
+      | (next hpc =>
+          simpa [retLockTid] using rinv_pc_only hr _ _ s' (by subst hs; rfl) (by subst hs; rfl)
+            (by simp [hpc]) (by simp))
+      | (next hpc =>
+          obtain ⟨_, hs⟩ := hs
+          simpa [retLockTid] using rinv_pc_only hr _ _ s' (by subst hs; rfl) (by subst hs; rfl)
+            (by simp [hpc]) (by simp))
+
+theorem rinv_of_runFrom {v0 : Nat} {es : List Ev} : ∀ {s0 s : St} {rl : List Nat},
+    Inv s0 → RInv s0 rl → BoundedRun s0 es → (sys v0).runFrom s0 es = some s →
+    RInv s (rl ++ es.filterMap retLockTid) := by
+  induction es with
+  | nil => intro s0 s rl _ hq _ hr; simp [Sys.runFrom] at hr; subst hr; simpa using hq
+  | cons e es ih =>
+    intro s0 s rl hi hq hb hr
+    obtain ⟨s1, h1, hr'⟩ := runFrom_cons hr
+    simp only [BoundedRun, h1] at hb
+    have hi1 := inv_step s0 s1 e hi hb.1 h1
+    have := ih hi1 (rinv_step s0 s1 e rl hi hi1 hq h1) hb.2 hr'
+    cases h : retLockTid e <;> simpa [List.filterMap, h] using this
+
 end LibfiberVerif.Spin
